@@ -647,6 +647,7 @@ epoll_ctl_ex(int epfd, int op, int fd, struct epoll_event *event) {
 static int
 tpt_ev_post(int op, tp_event_p ev, tp_udata_p tp_udata) {
 	int error = 0, tfd, op_guess;
+	uint16_t ev_flags;
 	uint32_t lowat;
 	struct itimerspec new_tmr;
 	struct epoll_event epev;
@@ -787,15 +788,24 @@ err_out_proc:
 	}
 
 	op_guess = ((0 == tp_udata->tpdata) ? EPOLL_CTL_ADD : EPOLL_CTL_MOD);
+	ev_flags = ev->flags;
+	if (TP_CTL_ADD != op &&
+	    0 == ev_flags &&
+	    0 != tp_udata->tpdata &&
+	    TPDATA_EVENT_GET(tp_udata->tpdata) == ev->event) {
+		/* Enable/disable without flags: keep flags from registration,
+		 * like kqueue does with EV_ENABLE / EV_DISABLE. */
+		ev_flags = (uint16_t)TPDATA_FLAGS_GET(tp_udata->tpdata, ev->event);
+	}
 	TPDATA_TFD_SET(tp_udata->tpdata, 0);
-	TPDATA_EV_FL_SET(tp_udata->tpdata, ev->event, ev->flags); /* Remember original event and flags. */
+	TPDATA_EV_FL_SET(tp_udata->tpdata, ev->event, ev_flags); /* Remember original event and flags. */
 	if (TP_CTL_DISABLE == op) { /* Disable event. */
 		tp_udata->tpdata |= TPDATA_F_DISABLED;
 		epev.events |= EPOLLET; /* Mark as level trig, to only once report HUP/ERR. */
 	} else {
 		tp_udata->tpdata &= ~TPDATA_F_DISABLED;
 		epev.events |= tp_event_to_ep_map[ev->event];
-		epev.events |= tp_flags_to_ep(op, ev->flags);
+		epev.events |= tp_flags_to_ep(op, ev_flags);
 	}
 
 	/* fflags. */
